@@ -367,8 +367,7 @@ func (w *World) envLocked(a string) {
 				c()
 			}
 			w.mcancel = nil
-			w.setTerminal()
-			w.anyTerminal = false || w.anyTerminal
+			w.passTerminal = true // losing mastership legitimately ends the pass; completion is still promised
 			w.emit(map[string]any{"ev": "Master", "on": false})
 		}
 	case "regain":
